@@ -190,6 +190,9 @@ func Run(col *core.Collector, prop, tier, variant string, seed uint64, shard, ns
 	total := n
 	if prop == "C02" {
 		total = n + n/2 // the trials from n on have expiring entries and a clock moved by the workers (linexp.go)
+		if tier == "thorough" {
+			total = n + n/4
+		}
 	}
 	first := shard
 	if os.Getenv("VERIF_LINEXP_ONLY") != "" && prop == "C02" {
